@@ -88,6 +88,13 @@ class BaseElementLocator
 
     constexpr auto data_end(const std::byte*) const noexcept { return last_element_; }
 
+    // The address table does not know its allocator, its owner must return it before dropping or replacing it.
+    template <class Allocator>
+    void deallocate(std::size_t max_element_count, const Allocator& allocator) noexcept
+    {
+        element_addresses_.deallocate(max_element_count, allocator);
+    }
+
     void resize(std::size_t new_size, std::byte* memory_begin) noexcept
     {
         if (new_size < element_addresses_.size())
@@ -225,6 +232,11 @@ class BaseAllFixedSizeElementLocator
     constexpr auto data_end(std::byte* memory_begin) const noexcept { return memory_begin + stride_ * element_count_; }
 
     constexpr void resize(std::size_t new_size, const std::byte*) noexcept { element_count_ = new_size; }
+
+    template <class Allocator>
+    constexpr void deallocate(std::size_t, const Allocator&) const noexcept
+    {
+    }
 
     void move_elements_forward(std::size_t from, std::size_t to, std::byte* memory_begin) const noexcept
     {
